@@ -70,11 +70,10 @@ def _parse_one(path):
     fns, protos = cfront.functions(tu, path)
     from . import cnorm
     for fn in fns.values():
-        if cnorm.contains(fn["body"], ("SwitchStmt",)):
-            try:
-                cnorm.n1_switch({"inner": [fn["body"]]})      # N1 only: the abstract interpreter has no switch
-            except cnorm.Unsupported:
-                pass                                           # left as written: crange refuses it (analysis error)
+        try:
+            cnorm.light(fn)        # switch / ternary / flag temporaries in the form the abstract interpreter relates to guards
+        except cnorm.Unsupported:
+            pass                   # left as written: crange refuses what it has no transfer function for (analysis error)
     rel = os.sep.join(path.split(os.sep)[-2:])
     out_f, out_p = {}, {}
     for n, fn in fns.items():
